@@ -1,5 +1,6 @@
 """C04 -- response frames decode to exactly what the server sent."""
 import ipaddress
+import os
 import uuid
 
 from hypothesis import strategies as st
@@ -15,6 +16,8 @@ from vlib.harness import EnumPart, hyp_part
 PID = "C04"
 TITLE = "Response frames decode to exactly what the server sent"
 LEVEL = "exploration"
+# the quick tier is ~25 s of single-core work; forking a pool costs more (copy-on-write of the imported driver) than it saves
+SERIAL = os.environ.get("VERIF_TIER") == "quick"
 ENGINE = "proto"
 TECHNIQUE = ("property-based testing (Hypothesis): responses produced by an independent specification encoder "
              "(spec/proto.py) are decoded by the driver and compared attribute by attribute")
